@@ -58,6 +58,21 @@ def serial_variants():
     return out
 
 
+def slow_construction():
+    """Feig::new against a terminal that stalls twice in a row in one exchange of the configuration, then a further operation: whatever
+    the constructor gives up on, the connection that saw the stall is not used again."""
+    ok = {"o": "ok", "status": {"amount": [1]}, "uid": [1, 2, 3, 4]}
+    sil = dict(ok, fault={"pos": 0, "kind": "silence"})
+    sil1 = dict(ok, fault={"pos": 1, "kind": "silence"})
+    out = []
+    for k in range(6):
+        for s in (sil, sil1):
+            for n in (2, 3):
+                out.append({"start": "disconnected", "calls": [{"op": "new"}, {"op": "read_card"}, {"op": "read_card"}],
+                            "plan": {"exchanges": [ok] * k + [s] * n, "handshake": [], "default": ok}, "config": {"terminal_id": "11112222"}})
+    return out
+
+
 def run(chk):
     wd = vlib.workdir("C09")
     thorough = chk.tier == "thorough"
@@ -68,7 +83,7 @@ def run(chk):
     ppt, rcm = cl.calibrate(chk, binary)
     sc = cl.gen_scenarios(chk, "C09", thorough, ppt, rcm)
     walks = multi_fault(chk.seed, 5000 if thorough else 200)
-    out = cl.run_scenarios(binary, sc + serial_variants() + walks, wd, "c09")
+    out = cl.run_scenarios(binary, sc + serial_variants() + slow_construction() + walks, wd, "c09")
     outs, pfl = cl.validate_conn(chk, out, wd, "c09", shard=200, ppt=ppt, rcm=rcm)
     cl.report_conn(chk, outs, pfl, {"P09"}, WHAT)
     cl.validate_stream(chk, out, wd, "c09", ppt=ppt, rcm=rcm)
